@@ -150,6 +150,9 @@ def materialise_fit_kw(kw, idnt):
     for k, v in kw.items():
         if k == "params_initial":
             out[k] = build_params(v, idnt, kw.get("model_key"))
+        elif isinstance(v, dict) and "__tuple__" in v:
+            # a caller that passes a tuple where a list is usual
+            out[k] = tuple(v["__tuple__"])
         else:
             out[k] = copy.deepcopy(v)
     return out
@@ -745,7 +748,8 @@ def gen_fit_kw(rng, nkeys=None, invalid=False, force_key=None):
                                 [-8e-7, 2e-6], [0, 1e-6],
                                 [-float("inf"), 0.0], [1.9e-5, 2.2e-5],
                                 [-1e-12, 1e-12], [-1e-12, 0],
-                                [-1e-6, -1e-6], (-1e-6, 5e-7)])
+                                [-1e-6, -1e-6],
+                                {"__tuple__": [-1e-6, 5e-7]}])
         elif k == "segment":
             kw[k] = rng.choice([0, 1, "approach", "retract"])
         elif k == "weight_cp":
@@ -1913,7 +1917,15 @@ class CurveEngineC09:
                 kw = copy.deepcopy(kw)
                 if "names" in kw and rng.random() < 0.2:
                     rng.shuffle(kw["names"])
-                ops.append({"op": "rate", "kw": kw, "ts": ts})
+                op = {"op": "rate", "kw": kw, "ts": ts}
+                if swarm["faults"] and rng.random() < 0.35:
+                    op["fault"] = {
+                        "seam": rng.choice(["get_rater", "rater_rate"]),
+                        "at": 1, "when": rng.choice(["before", "after"]),
+                        "exc": rng.choice(["RuntimeError", "EIO",
+                                           "KeyboardInterrupt",
+                                           "MemoryError"])}
+                ops.append(op)
             elif r < 0.47:
                 # contact point fixed next to the edge of the data
                 ops.append({"op": "fit", "kw": {"params_initial": {
@@ -2124,6 +2136,29 @@ class CurveEngineC09:
                                                    kw.get("lda"))
                 except Exception:
                     in_domain = False
+            if op.get("fault"):
+                # the same request fails first (construction of the rater or
+                # the rating itself is aborted); the request is then made
+                # again and judged like any other
+                fo = apply_op(idnt, {"op": "rate", "kw": call_kw,
+                                     "_alias": tsname.startswith("held:"),
+                                     "fault": op["fault"]})
+                executed += 1
+                if fo.get("fired"):
+                    f = fo["fired"]
+                    faults[f"{f['seam']}:{f['exc']}:{f['when']}"] += 1
+                    probes["rating request aborted by an injected fault"] += 1
+                    if fo.get("ok"):
+                        violation = make_violation(
+                            self.prop, "Q1", "fault-swallowed", feats,
+                            f"an injected {f['exc']} in {f['seam']} did not "
+                            f"reach the caller; rate_quality returned "
+                            f"{fo.get('ret')}", i)
+                        break
+                elif fo["rater_constructions"]:
+                    cache_ref = (key, prep_epoch)
+                log.append({"i": i, "op": "rate-faulted", "out": dict(fo),
+                            "obs": core.digest(observe_c09(idnt))})
             outcome = apply_op(idnt, {"op": "rate", "kw": call_kw,
                                       "_alias": tsname.startswith("held:")})
             executed += 1
@@ -2458,8 +2493,13 @@ def c10_new_object(what, spec, idnt):
         return build_params(spec, idnt)
     if what == "force":
         cfg = dict(spec)
-        arr = curves.make_curve(cfg)["force"]
-        return np.array(arr, copy=True)
+        bad = cfg.pop("invalid", None)
+        arr = np.array(curves.make_curve(cfg)["force"], copy=True)
+        for pos, val in (bad or []):
+            # legal input: a recording with invalid samples
+            arr[int(pos * (arr.size - 1))] = {
+                "nan": np.nan, "inf": np.inf, "-inf": -np.inf}[val]
+        return arr
     if what == "xarray":
         n = int(spec.get("n", 50))
         lo, hi = spec.get("lo", -1e-6), spec.get("hi", 1e-6)
@@ -2578,6 +2618,15 @@ def c10_apply(idnt, caller, op):
                 for k in sorted(op.get("args", {})):
                     kw[k] = A(k, op["args"][k])
                 out["ret"] = fhex(idnt.rate_quality(**kw))
+            elif kind == "load_ts":
+                from nanite.rate.rater import IndentationRater
+                names = A("names", op.get("names"))
+                r = IndentationRater.load_training_set(
+                    path=_zef18_path(), names=names,
+                    **copy.deepcopy(op.get("kw", {})))
+                out["ret"] = [digest_array(np.asarray(r[0])),
+                              digest_array(np.asarray(r[1]))]
+                caller.hold(op["slot"], (r[0], r[1]), returned=True)
             elif kind == "rate_samples":
                 samples = A("samples", op["samples"])
                 rater = RATERS.get("Decision Tree")
@@ -2633,7 +2682,7 @@ def c10_gen_scenario(rng, sid):
     again."""
     kind = rng.choice(["params", "params", "init", "init", "steps",
                        "options", "method_kws", "range_x", "names",
-                       "force", "model", "samples", "trainset"])
+                       "force", "model", "samples", "trainset", "loadts"])
     s = f"{kind}{sid}"
     extra = {}
     if rng.random() < 0.4:
@@ -2808,10 +2857,28 @@ def c10_gen_scenario(rng, sid):
                                  if c not in names])}})
         ops.append({"op": "rate", "args": {"regressor": "Decision Tree",
                                            "names": {"slot": s}}})
+    elif kind == "loadts":
+        # a training set read from disk is a returned object the caller may
+        # edit; reading the same files again gives the same arrays
+        names = rng.choice([None, None, rng.sample(CON_FEATURES, 4)])
+        kw = rng.choice([{}, {"remove_nan": False},
+                         {"remove_nan": False, "replace_inf": False},
+                         {"impute_zero_rated_nan": False},
+                         {"replace_inf": False}])
+        ops.append({"op": "load_ts", "slot": s, "names": names, "kw": kw})
+        ops.append({"op": "mutate", "slot": s, "edit": {
+            "kind": "tuple_col_scale", "index": rng.choice([0, 1]),
+            "col": rng.randrange(4), "factor": rng.choice([-1.0, 3.0])}})
+        ops.append({"op": "load_ts", "slot": s + "b", "names": names,
+                    "kw": kw})
     elif kind == "force":
-        ops.append({"op": "new", "slot": s, "what": "force", "spec": {
-            "kind": "synthetic", "model": mk, "n": rng.choice([80, 200]),
-            "noise": 0.01, "seed": rng.randrange(100)}})
+        spec = {"kind": "synthetic", "model": mk, "n": rng.choice([80, 200]),
+                "noise": 0.01, "seed": rng.randrange(100)}
+        if rng.random() < 0.4:
+            spec["invalid"] = [[rng.choice([0.0, 0.1, 0.5, 0.9, 1.0]),
+                                rng.choice(["nan", "inf", "-inf"])]
+                               for _ in range(rng.choice([1, 2]))]
+        ops.append({"op": "new", "slot": s, "what": "force", "spec": spec})
         ops.append({"op": "poc", "force": {"slot": s},
                     "method": rng.choice(POC_METHODS),
                     "details": rng.random() < 0.6})
@@ -2919,6 +2986,7 @@ class CurveEngineC10:
         states = set()
         violation = None
         edited = set()
+        loads = {}
         nontrivial = False
         oracle_checks = 0
         executed = 0
@@ -2977,6 +3045,25 @@ class CurveEngineC10:
             states.add(core.digest([op["op"], feats["passed"],
                                     oa.get("ok"), oa.get("minimize_calls", 0)
                                     > 0]))
+            if op["op"] == "load_ts":
+                # same files, same arguments: the same arrays, whatever a
+                # caller did to the ones it got before
+                rk = core.jdump([op.get("names"), op.get("kw")])
+                bad = None
+                for world, o_ in (("alias", oa), ("value", ov)):
+                    first = loads.setdefault((world, rk), o_.get("ret"))
+                    if first != o_.get("ret"):
+                        bad = world
+                probes["training set read again"] += 1
+                if bad:
+                    feats["world"] = bad
+                    violation = make_violation(
+                        self.prop, "A1", "reload-differs:load_ts", feats,
+                        f"load_training_set with the same arguments on "
+                        f"unchanged files returned other arrays than before "
+                        f"(an earlier returned object was edited in place)",
+                        i)
+                    break
             if oa != ov:
                 violation = make_violation(
                     self.prop, "A1", f"outcome:{op['op']}", feats,
